@@ -55,6 +55,7 @@ func (v *FHIRPathVisitor) transformedVisitResult(resultExpr expr.Expression) *Vi
 	if v.Transform == nil {
 		v.Transform = IdentityTransform
 	}
+	resultExpr = verifWrap(resultExpr)
 	return &VisitResult{v.Transform(resultExpr), nil}
 }
 
